@@ -11,7 +11,7 @@ from .c10 import guards_formula
 
 def tuple_index(n):
     """i if n is std::get<i>(x), returning (i, x node)"""
-    s = n.strip_all()
+    s = ex.subst(n)
     if s.k == 'CallExpr' and s.callee and s.callee['g'] == 'std::get' and s.args():
         ta = s.callee.get('targs') or []
         if ta and isinstance(ta[0], dict) and 'int' in ta[0]:
@@ -23,8 +23,8 @@ def found_of(n):
     """var id X if n is found(X)"""
     i, x = tuple_index(n)
     if i == 2:
-        return ex.var_of(x)
-    s = n.strip_all()
+        return ex.var_of(ex.subst(x))
+    s = ex.subst(n)
     if s.k == 'MemberExpr' and s.decl and s.decl.get('name') in ('exists', 'found', 'valid') and s.c:
         return ex.var_of(s.c[0])
     return None
@@ -33,13 +33,41 @@ def found_of(n):
 def weight_of(n):
     i, x = tuple_index(n)
     if i == 1:
-        return ex.var_of(x)
-    s = n.strip_all()
+        return ex.var_of(ex.subst(x))
+    s = ex.subst(n)
     if s.k == 'MemberExpr' and s.decl and s.decl.get('name') in ('weight', '_weight') and s.c:
         return ex.var_of(s.c[0])
     if s.k == 'CXXMemberCallExpr' and s.callee and s.callee['name'] == 'weight':
         return ex.var_of(s.object_arg())
+    # a local `const W w = weight(X) + extra;` that is stored back with `weight(X) = w` stands for the weight of X
+    if s.k == 'DeclRefExpr' and s.decl_id is not None and s.fn is not None and _depth[0] < 2:
+        v = s.prog.vars[s.decl_id]
+        if v.get('kind') == 'local':
+            d = ex.unique_def(s.fn, s.decl_id)
+            dd = d.strip_all() if d is not None else None
+            if dd is not None and dd.k in ('BinaryOperator', 'CXXOperatorCallExpr') and dd.op == '+':
+                ops = dd.c if dd.k == 'BinaryOperator' else dd.c[1:]
+                _depth[0] += 1
+                try:
+                    xs = [weight_of(o) for o in ops]
+                finally:
+                    _depth[0] -= 1
+                xs = [x for x in xs if x is not None]
+                if len(xs) == 1:
+                    for m in s.fn.walk():
+                        if m.k in ('BinaryOperator', 'CXXOperatorCallExpr') and m.op == '=':
+                            mo = m.c if m.k == 'BinaryOperator' else m.c[1:]
+                            _depth[0] += 1
+                            try:
+                                tgt = weight_of(mo[0]) if len(mo) == 2 else None
+                            finally:
+                                _depth[0] -= 1
+                            if tgt == xs[0] and ex.var_of(mo[1]) == s.decl_id:
+                                return xs[0]
     return None
+
+
+_depth = [0]
 
 
 def less_of(n):
@@ -73,6 +101,19 @@ def leq_of(n):
     return None
 
 
+def refs_through_callee(leaf, var):
+    """does the leaf call a local lambda / repo function whose body mentions `var` (a capture)?"""
+    from lib import par
+    for n in leaf.walk():
+        fs = []
+        if n.k == 'CXXOperatorCallExpr' and n.op == '()' and len(n.c) >= 2:
+            fs, _ = par.lambda_functions(n.prog, n.c[1])
+        for f in fs:
+            if f.body is not None and ex.refs_var(f.body, var):
+                return True
+    return False
+
+
 def min_update_contract(fn, assign, acc, x):
     """judge `acc = x` (node assign).  Returns (verdict, detail)."""
     cfg = fn.cfg
@@ -93,7 +134,7 @@ def min_update_contract(fn, assign, acc, x):
             return ex.f_not(ex.f_atom('gt'))
         if le == (acc, x):
             return ex.f_not(ex.f_atom('lt'))
-        if ex.refs_var(leaf, acc):
+        if ex.refs_var(leaf, acc) or refs_through_callee(leaf, acc):
             return ex.f_atom(('acc-opaque', leaf.i))
         return None
     assigns = assign if isinstance(assign, (list, tuple)) else [assign]
@@ -153,12 +194,34 @@ def returned_param(expr, params):
     return None
 
 
+def _only_returned_call(fn):
+    if fn.body is None:
+        return None
+    stmts = list(fn.body.c) if fn.body.k == 'CompoundStmt' else [fn.body]
+    if len(stmts) == 1 and stmts[0].k == 'ReturnStmt' and stmts[0].c:
+        r = stmts[0].c[0].strip_all()
+        if r.k in ('CallExpr', 'CXXMemberCallExpr'):
+            return r
+    return None
+
+
 def join_table(fn):
     """for a binary join(c1, c2): verdict on the min-join specification"""
     if len(fn.param_ids) != 2:
         return 'undecided', 'join does not take two operands'
     p1, p2 = fn.param_ids
     cfg = fn.cfg
+    # a join that only forwards its two operands (in order) to another repo function is judged through that function
+    call = _only_returned_call(fn)
+    if call is not None and _depth[0] < 3 and call.k in ('CallExpr', 'CXXMemberCallExpr') and call.callee and call.callee.get('in_repo'):
+        target = fn.prog.fn_of_fref(call.callee_id)
+        a = call.args()
+        if target is not None and len(a) == 2 and [ex.var_of(a[0]), ex.var_of(a[1])] == [p1, p2]:
+            _depth[0] += 1
+            try:
+                return join_table(target)
+            finally:
+                _depth[0] -= 1
 
     def atomize(leaf):
         fv = found_of(leaf)
@@ -178,6 +241,7 @@ def join_table(fn):
             return ex.f_not(ex.f_atom('lt21'))
         return None
     outcomes = []   # (formula, returned param index)
+    fresh = []
 
     def add(expr, cond):
         s = expr.strip_all()
@@ -189,7 +253,14 @@ def join_table(fn):
             add(s.then, ex.f_and(cond, c))
             add(s.els, ex.f_and(cond, ex.f_not(c)))
             return
-        outcomes.append((cond, returned_param(s, [p1, p2])))
+        rp = returned_param(s, [p1, p2])
+        if rp is None and (s.k in ex.CTOR_KINDS + ('InitListExpr', 'CXXTemporaryObjectExpr') or
+                           (s.k == 'CallExpr' and s.callee and s.callee['name'] in ('make_tuple', 'make_pair'))) and \
+                not (len(s.c) == 1 and returned_param(s.c[0], [p1, p2]) is not None):
+            fresh.append(s)
+        if rp is None and len(s.c) == 1 and s.k in ex.CTOR_KINDS:
+            rp = returned_param(s.c[0], [p1, p2])
+        outcomes.append((cond, rp))
     for r in ex.returns_of(fn):
         if not r.c:
             continue
@@ -204,8 +275,10 @@ def join_table(fn):
                 atoms.append(a)
     if any(isinstance(a, tuple) for a in atoms):
         return 'undecided', 'join branches on a condition that is not over found flags / weights'
+    if fresh:
+        return 'violation', 'join returns a freshly built value (`%s`) instead of one of its two operands' % fresh[0].text(40)
     if any(p is None for (_f, p) in outcomes):
-        return 'violation', 'join returns something else than one of its two operands'
+        return 'undecided', 'join returns something else than one of its two operands (value not understood)'
     right_biased = False
     for f1 in (False, True):
         for f2 in (False, True):
